@@ -107,3 +107,13 @@ func DecodeSegment(data []byte) (int, error) {
 	b := int(other[5]) // SLICE-CONST: discharged
 	return a + b, nil
 }
+
+// DecodeTable sizes a lookup table as 2^(header byte): exponential-allocation control (MAKE).
+func DecodeTable(data []byte) ([]int8, error) {
+	if len(data) < 2 {
+		return nil, errBad
+	}
+	precision := int(data[0])
+	table := make([]int8, 2<<uint(precision))
+	return table, nil
+}
